@@ -304,38 +304,7 @@ func runC13(r *Report, tier string) {
 	}
 	// predicates by kind table
 	_, isClass := checkValuePredicateKinds(r, "R13.1")
-	// R13.7 normaliser
-	{
-		kt, ok, why := P.acceptedKinds(norm)
-		want := wantKinds(nil, signedKinds, unsignedKinds, []string{"string"})
-		o := r.ob("R13.7", shortFn(norm)+":kinds", norm, nil, "normalisation accepts the ten integer kinds and string")
-		o.check(ok && kindsEqual(kt, want), kt.String(), "accepts "+kt.String()+" "+why)
-		// conversions
-		bad := ""
-		for _, p := range P.allPaths(norm) {
-			res := p.results()
-			if res[1].Op == "const" && res[1].S == "false" {
-				continue
-			}
-			v := res[0]
-			switch {
-			case v.String() == "$0":
-				// string arm: must be under typeassert<string>
-				if !p.has(Fact{&Term{Op: "res", S: "1", Args: []*Term{{Op: "typeassert", S: "string,ok", Args: []*Term{T("param", "0")}}}}, true}) {
-					bad = "the label is returned unchanged on a path that is not the string arm"
-				}
-			case v.Op == "iface" && v.S == "int64":
-				if why := intOfParam(P, v.Args[0], p, 0); why != "" {
-					bad = "an accepting path returns the int64 " + truncate(v.Args[0].String(), 120) + ": " + why
-				}
-			case v.Op == "iface" && v.S == "string" && v.Args[0].String() == "res<0>(typeassert<string,ok>($0))" && p.has(Fact{&Term{Op: "res", S: "1", Args: []*Term{{Op: "typeassert", S: "string,ok", Args: []*Term{T("param", "0")}}}}, true}):
-				// the string arm returning the asserted value re-wrapped: the same string
-			default:
-				bad = "an accepting path returns " + v.String() + ", neither an int64 nor the string itself"
-			}
-		}
-		r.ob("R13.7", shortFn(norm)+":result", norm, nil, "integers are returned as int64, strings unchanged").check(bad == "", "int64 / string", bad)
-	}
+	checkLabelNormalizer(r, "R13.7")
 
 	// R13.1 table
 	eps, _ := P.validatorEntryPaths(val)
@@ -1010,5 +979,43 @@ func mutC13() []mutant {
 			Old: "\tif hasLabel(h.Protected, HeaderLabelPartialIV) && hasLabel(h.Unprotected, HeaderLabelIV) {\n\t\treturn errors.New(\"IV (unprotected) and PartialIV (protected) parameters must not both be present\")\n\t}\n", New: ""},
 		{Name: "HeaderLabelKeyID renumbered", File: "headers.go", Rule: "R13.1",
 			Old: "HeaderLabelKeyID               int64 = 4", New: "HeaderLabelKeyID               int64 = 14"},
+	}
+}
+
+// checkLabelNormalizer (R13.7; shared with C06: the normaliser's result is a
+// boxed int64 or a string, so comparing two normalised labels cannot panic).
+func checkLabelNormalizer(r *Report, rule string) {
+	P := r.P
+	norm := P.labelNormalizer()
+	{
+		kt, ok, why := P.acceptedKinds(norm)
+		want := wantKinds(nil, signedKinds, unsignedKinds, []string{"string"})
+		o := r.ob(rule, shortFn(norm)+":kinds", norm, nil, "normalisation accepts the ten integer kinds and string")
+		o.check(ok && kindsEqual(kt, want), kt.String(), "accepts "+kt.String()+" "+why)
+		// conversions
+		bad := ""
+		for _, p := range P.allPaths(norm) {
+			res := p.results()
+			if res[1].Op == "const" && res[1].S == "false" {
+				continue
+			}
+			v := res[0]
+			switch {
+			case v.String() == "$0":
+				// string arm: must be under typeassert<string>
+				if !p.has(Fact{&Term{Op: "res", S: "1", Args: []*Term{{Op: "typeassert", S: "string,ok", Args: []*Term{T("param", "0")}}}}, true}) {
+					bad = "the label is returned unchanged on a path that is not the string arm"
+				}
+			case v.Op == "iface" && v.S == "int64":
+				if why := intOfParam(P, v.Args[0], p, 0); why != "" {
+					bad = "an accepting path returns the int64 " + truncate(v.Args[0].String(), 120) + ": " + why
+				}
+			case v.Op == "iface" && v.S == "string" && v.Args[0].String() == "res<0>(typeassert<string,ok>($0))" && p.has(Fact{&Term{Op: "res", S: "1", Args: []*Term{{Op: "typeassert", S: "string,ok", Args: []*Term{T("param", "0")}}}}, true}):
+				// the string arm returning the asserted value re-wrapped: the same string
+			default:
+				bad = "an accepting path returns " + v.String() + ", neither an int64 nor the string itself"
+			}
+		}
+		r.ob(rule, shortFn(norm)+":result", norm, nil, "integers are returned as int64, strings unchanged").check(bad == "", "int64 / string", bad)
 	}
 }
